@@ -8,6 +8,7 @@ import (
 
 	"go.sia.tech/core/consensus"
 	"go.sia.tech/core/types"
+	"go.sia.tech/coreutils/chain"
 	"pgregory.net/rapid"
 
 	"verif/kit"
@@ -138,7 +139,7 @@ func submitAll(tr *kit.Tree, node *kit.Node, steps []kit.SubmitStep, audit bool,
 func runC03(c C03Case, cs *kit.CaseStats) error {
 	tr := kit.BuildTree(c.Tree)
 	innerName := []string{"mem", "cache(mem)", "bolt", "cache(bolt)"}[((c.Inner%4)+4)%4]
-	inner, err := kvm.NewBackend(innerName)
+	inner, snap, top, err := layeredBackend(innerName)
 	if err != nil {
 		return fmt.Errorf("INFRA: %v", err)
 	}
@@ -146,11 +147,10 @@ func runC03(c C03Case, cs *kit.CaseStats) error {
 	var commits []commitPoint
 	opCount, stepNo := 0, 0
 	inReorgOps := 0 // store operations since the current submission call started
-	snap := &kvm.SnapDB{Inner: inner.DB, Buckets: []string{"Version", "Network", "MainChain", "States", "Blocks", "FileContracts", "SiacoinElements", "SiafundElements", "Tree"}}
 	snap.OnCommit = func(img kvm.Image) {
 		commits = append(commits, commitPoint{img: img, opIndex: opCount, midReorg: inReorgOps > 0, step: stepNo})
 	}
-	be := &kvm.Backend{Name: "snap(" + innerName + ")", DB: snap, Reopen: func() error { return nil }, Close: func() {}}
+	be := &kvm.Backend{Name: "recorded(" + innerName + ")", DB: top, Reopen: func() error { return nil }, Close: func() {}}
 	node, err := kit.OpenNode(tr, be)
 	if err != nil {
 		return fmt.Errorf("INFRA: %v", err)
@@ -381,16 +381,15 @@ type crashSentinel struct{}
 // place. The result must be exactly the store restored from the image recorded
 // at the last commit: nothing done after a commit may change committed data.
 func crashInPlace(tr *kit.Tree, c C03Case, innerName string, cs *kit.CaseStats) error {
-	inner, err := kvm.NewBackend(innerName)
+	inner, snap, top, err := layeredBackend(innerName)
 	if err != nil {
 		return fmt.Errorf("INFRA: %v", err)
 	}
 	defer inner.Close()
 	var lastImg kvm.Image
 	have := false
-	snap := &kvm.SnapDB{Inner: inner.DB, Buckets: []string{"Version", "Network", "MainChain", "States", "Blocks", "FileContracts", "SiacoinElements", "SiafundElements", "Tree"}}
 	snap.OnCommit = func(img kvm.Image) { lastImg, have = img, true }
-	be := &kvm.Backend{Name: "snap(" + innerName + ")", DB: snap, Reopen: func() error { return nil }, Close: func() {}}
+	be := &kvm.Backend{Name: "recorded(" + innerName + ")", DB: top, Reopen: func() error { return nil }, Close: func() {}}
 	node, err := kit.OpenNode(tr, be)
 	if err != nil {
 		return fmt.Errorf("INFRA: %v", err)
@@ -444,6 +443,7 @@ func crashInPlace(tr *kit.Tree, c C03Case, innerName string, cs *kit.CaseStats) 
 	sinceCommit = ops - onCommitOps
 	where := fmt.Sprintf("second run abandoned inside store operation %d (%d operation(s) after the last commit), uncommitted writes discarded, database reopened in place", c.CrashAt, sinceCommit)
 	snap.OnCommit = nil
+	top.Cancel()
 	snap.Cancel()
 	live, err := func() (n *kit.Node, err error) {
 		defer func() {
@@ -472,4 +472,22 @@ func crashInPlace(tr *kit.Tree, c C03Case, innerName string, cs *kit.CaseStats) 
 		cs.Class("crash-in-place:right-after-a-commit")
 	}
 	return nil
+}
+
+// layeredBackend builds the database a C03 node runs on. The commit recorder
+// sits directly on the bottom store (MemDB or Bolt), below the write-caching
+// wrapper where there is one, so that every durable commit of the bottom store
+// is seen - also one that a wrapper issues in the middle of its own flush.
+func layeredBackend(innerName string) (base *kvm.Backend, snap *kvm.SnapDB, top chain.DB, err error) {
+	baseName := map[string]string{"mem": "mem", "cache(mem)": "mem", "bolt": "bolt", "cache(bolt)": "bolt"}[innerName]
+	base, err = kvm.NewBackend(baseName)
+	if err != nil {
+		return nil, nil, nil, err
+	}
+	snap = &kvm.SnapDB{Inner: base.DB, Buckets: []string{"Version", "Network", "MainChain", "States", "Blocks", "FileContracts", "SiacoinElements", "SiafundElements", "Tree"}}
+	top = snap
+	if innerName != baseName {
+		top = chain.NewCacheDB(snap)
+	}
+	return base, snap, top, nil
 }
